@@ -69,6 +69,21 @@ type Kit struct {
 	// whose sub-check name starts with "whole-process" belong to it and to no other
 	// part of the same property.
 	WholeProcess bool
+
+	// Special names the family of sub-checks this part owns exclusively ("real-clock", "concurrent-scrapes"; ""
+	// for an ordinary part): a saved case is replayed by the part whose family its sub-check name starts with.
+	Special string
+}
+
+var specialSubs = []string{"whole-process", "real-clock", "concurrent-scrapes"}
+
+func specialOf(sub string) string {
+	for _, p := range specialSubs {
+		if strings.HasPrefix(sub, p) {
+			return p
+		}
+	}
+	return ""
 }
 
 // A Part describes one sub-check of a run.
@@ -374,7 +389,11 @@ func (k *Kit) Regress(t *testing.T, d Dispatch) {
 			t.Fatalf("verifkit: %s belongs to %s, not %s", f, doc.Property, k.ID)
 		}
 		sub := doc.Sub
-		if strings.HasPrefix(sub, "whole-process") != k.WholeProcess {
+		mine := k.Special
+		if k.WholeProcess {
+			mine = "whole-process"
+		}
+		if specialOf(sub) != mine {
 			continue // a case of another part of this property
 		}
 		err = Guard(func() error { return d(sub, doc.Case) })
